@@ -21,7 +21,7 @@ META = {
     },
     "assumptions": ["A1: pattern masses m[p] >= 0, u[p] >= 0 (independent of each other)",
                     "tabulator (symx/tab.py) models the backend's wire layout; floats treated as reals"],
-    "outside": ["sizes beyond the bounds", "covariance measure", "numeric-array dimensions (covered only through the fixture differential)"],
+    "outside": ["sizes beyond the bounds", "covariance measure", "numeric arrays beyond the repository's fixture shapes"],
 }
 
 
@@ -186,6 +186,81 @@ def fixture_cells(eng, path):
     return obs
 
 
+def fixture_numarr(eng, path):
+    """numeric-array fixtures: the measure data has the sub-variable axis LAST in the payload and FIRST in the cube;
+    every mean / sum / stddev / median and every valid count is symbolic"""
+    import json
+    raw = json.load(open(path))
+    res = raw.get("value", raw)["result"]
+    dims = res["dimensions"]
+    # grouping dimension(s): none, one categorical, or a multiple-response pair (items, selected/other/missing)
+    if len(dims) == 0:
+        gshape, cells = (), [()]
+    elif len(dims) == 1:
+        cats = dims[0]["type"].get("categories") or dims[0]["type"].get("elements")
+        gshape = (len(cats),)
+        cells = [(k,) for k, c in enumerate(cats) if not c.get("missing")]
+    else:
+        nit = len(dims[0]["type"]["elements"])
+        gshape = (nit, 3)
+        cells = [(k, 0) for k in range(nit)]          # selected plane of each item
+    tensors = {}
+    nsub = None
+    for mname, m in res["measures"].items():
+        if mname not in ("mean", "sum", "stddev", "median", "valid_count_unweighted"):
+            continue
+        sub = m.get("metadata", {}).get("type", {}).get("subvariables")
+        if not sub:
+            continue
+        nsub = len(sub)
+        shape = gshape + (nsub,)
+        flat = np.array(m["data"], dtype=object).reshape(-1).tolist() if not isinstance(m["data"][0], list) else [x for row in m["data"] for x in row]
+        T = np.empty(shape, dtype=object)
+        data = []
+        for k, idx in enumerate(np.ndindex(shape)):
+            x = flat[k]
+            if isinstance(x, dict):
+                T[idx] = C.nan_like(eng)
+                data.append(x)
+            else:
+                T[idx] = eng.real("%s%d" % (mname[:2], k), lo=0 if mname in ("valid_count_unweighted", "stddev") else None)
+                data.append(T[idx])
+        m["data"] = SymList(data) if not isinstance(m["data"][0], list) else [SymList(data)]
+        tensors[mname] = T
+    part = Cube(raw).partitions[0]
+    prop = {"mean": "means", "sum": "sums", "stddev": "stddev", "median": "medians", "valid_count_unweighted": "unweighted_counts"}
+    obs = []
+    for mname, T in tensors.items():
+        if len(gshape) == 0:
+            want = C.to_array([T[(s_,)] for s_ in range(nsub)])
+        else:
+            want = C.to_array([[T[c + (s_,)] for c in cells] for s_ in range(nsub)])
+        try:
+            got = getattr(part, prop[mname])
+        except ValueError:
+            continue
+        if getattr(got, "ndim", 0) == 2:
+            bc = [j for j in range(got.shape[1]) if j not in set(int(x) for x in part.inserted_column_idxs)]
+            got = got[:, bc]
+        obs.append(Obs(prop[mname], got, want))
+    return obs
+
+
+def nub(eng):
+    """0-D cube: the mean and the unweighted count the response carries"""
+    import json
+    raw = json.load(open("/repo/tests/fixtures/econ-mean-no-dims.json"))
+    res = raw.get("value", raw)["result"]
+    mean = eng.real("mean")
+    n = eng.real("n", lo=0)
+    res["measures"]["mean"]["data"] = SymList([mean])
+    res["counts"] = SymList([n])
+    res["measures"]["count"]["data"] = SymList([n])
+    part = Cube(raw).partitions[0]
+    return [Obs("nub means", C.to_array([part.means]), C.to_array([mean])),
+            Obs("nub unweighted_count", C.to_array([part.unweighted_count]), C.to_array([n]))]
+
+
 def V(kind, alias, size, missing_at=(1,)):
     kw = {"missing_at": tuple(missing_at)} if kind in ("cat", "catdate", "ca") else {}
     return (kind, alias, size, kw)
@@ -239,6 +314,12 @@ def specs(tier):
                "squared-weights-cat-x-cat.json", "cat-stddev.json", "cat-sum.json", "cat-median.json", "econ-mean-age-blame-x-gender.json", "single-col-margin-not-iterable.json"]
     for f in quick_fx + (more_fx if tier == "thorough" else []):
         add("fixture " + f, "fixture_cells", dict(path=FX + f))
+    na = ["num-arr-means-grouped-by-cat.json", "num-arr-means-no-grouping.json", "num-arr-means-x-mr.json", "num-arr-sum-grouped-by-cat.json", "num-arr-stddev-x-mr.json", "num-arr-median-grouped-by-cat.json"]
+    na_more = ["num-arr-means-grouped-by-cat-hs.json", "num-arr-means-grouped-by-cat-date.json", "num-arr-means-grouped-by-date.json", "num-arr-sum-x-mr.json", "num-arr-stddev-grouped-by-cat.json",
+               "num-arr-median-x-mr.json", "num-arr-multi-numeric-measures-grouped-by-cat.json", "num-arr-stddev-no-grouping.json", "num-arr-median-no-grouping.json"]
+    for f in na + (na_more if tier == "thorough" else []):
+        out.append(dict(module=M, fn="fixture_numarr", name="numeric array fixture " + f, params=dict(path=FX + "numeric_arrays/" + f), max_paths=1500))
+    add("0-D cube (nub)", "nub", dict())
     if tier == "thorough":
         for ma in [(0,), (1,), (3,), (0, 2), (1, 3)]:
             add("2d cat3%s x cat3" % (ma,), "two_d", dict(rows=V("cat", "a", 3, ma), cols=V("cat", "b", 3, (2,))), max_paths=300)
